@@ -165,6 +165,18 @@ type RDPParts struct {
 	CorrInfo bool
 	Identity [16]byte
 	Reserved [16]byte
+	// TokenPortHigh > 0: the port field of the routing token is written as a decimal beyond 16 bits whose low
+	// 16 bits are those of TokenPort (not a port number at all)
+	TokenPortHigh int
+}
+
+// RDPTokenCookieHigh is RDPTokenCookie with high*65536 added to the port field.
+func RDPTokenCookieHigh(ip [4]byte, port uint16, high int) string {
+	ipNum := binary.LittleEndian.Uint32(ip[:])
+	var pb [2]byte
+	binary.BigEndian.PutUint16(pb[:], port)
+	portNum := int(binary.LittleEndian.Uint16(pb[:])) + high*65536
+	return fmt.Sprintf("Cookie: msts=%d.%d.0000\r\n", ipNum, portNum)
 }
 
 func RDPTokenCookie(ip [4]byte, port uint16) string {
@@ -183,6 +195,9 @@ func RDPPayload(p RDPParts) []byte {
 		pl = append(pl, "Cookie: mstshash="+p.Cookie+"\r\n"...)
 	case p.TokenIP != nil:
 		opt := RDPTokenCookie(*p.TokenIP, p.TokenPort)
+		if p.TokenPortHigh > 0 {
+			opt = RDPTokenCookieHigh(*p.TokenIP, p.TokenPort, p.TokenPortHigh)
+		}
 		total := 11 + len(opt)
 		tok := []byte{3, 0, byte(total >> 8), byte(total), byte(total - 5), 0xE0, 0, 0, 0, 0, 0}
 		pl = append(pl, tok...)
